@@ -870,7 +870,7 @@ Definition disjoint_keys (a b : msg) : bool :=
 Definition independent (a b : msg) : bool :=
   negb (control_msg a) && negb (control_msg b) &&
   match a, b with
-  | MComp u t (VN _), MComp u' t' (VN _) => negb (u =? u') || negb (t =? t')
+  | MComp u t _, MComp u' t' _ => negb (u =? u') || negb (t =? t')
   | MParented c _, MParented c' _ => negb (c =? c')
   | _, _ => disjoint_keys a b
   end.
